@@ -181,7 +181,6 @@ func (e *Engine) nonZeroAt(fa *FuncAnalysis, in ssa.Instruction, d *Term) (bool,
 
 // divisorTable: sites accepted with a stated reason (DESIGN 3.8 (c)).
 var divisorTable = map[string]string{
-	"keeper.Keeper.AddAssetsToRewardPool | math.LegacyDec.Quo / phi<totalStakedRewardWeight>":                 "sum of rewardWeight x share-of-asset over the non-skipped assets; zero only if every non-skipped asset on the validator has reward weight 0 while the module still earns staking rewards there (alliance voting power on the validator is then 0, so no rewards accrue to the module): not shown reachable; assumption, not a finding",
 	"keeper.Keeper.AddAssetsToRewardPool | math.LegacyDec.Quo / types.AllianceValidator.TotalTokensWithAsset": "same computation val.TotalTokensWithAsset(asset) as the one tested non-zero by shouldSkipRewardsToAsset in the same iteration, with no write to the validator or the asset in between",
 }
 
